@@ -9,6 +9,7 @@ import (
 	"testing"
 
 	"github.com/ipld/go-ipld-prime"
+	"github.com/ipld/go-ipld-prime/codec/dagjson"
 	"pgregory.net/rapid"
 
 	"github.com/ucan-wg/go-ucan/pkg/policy/selector"
@@ -27,6 +28,7 @@ func TestReplay(t *testing.T) { P.Replay(t) }
 type Case struct {
 	Sel  sel.Sel `json:"sel"`
 	Data val.V   `json:"data"`
+	Text string  `json:"text,omitempty"` // the selector text as given (fuzz target); Sel are the segments the reference grammar derives from it
 }
 
 type outcome struct {
@@ -117,7 +119,10 @@ func segClass(s sel.Sel, upto int) string {
 }
 
 func run(c *h.Ctx, cs Case) {
-	text := cs.Sel.Text()
+	text := cs.Text
+	if text == "" {
+		text = cs.Sel.Text()
+	}
 	data := cs.Data.Node()
 	got, perr := implSelect(text, data)
 	if perr != nil {
@@ -423,3 +428,33 @@ var reuseProp = h.Define(P, "reuse", func(t *rapid.T) ReuseCase {
 }, runReuse)
 
 func TestReuse(t *testing.T) { reuseProp.Check(t) }
+
+// FuzzSelect: coverage-guided search over (selector text, DAG-JSON data): whenever the text is one the reference
+// grammar derives, the result is judged by the reference resolver and the compositionality clause.
+func FuzzSelect(f *testing.F) {
+	for _, s := range [][2]string{{".a", `{"a":1}`}, {".a[0]", `{"a":[1,2]}`}, {".[1:]", `"héllo"`}, {".[]", `{"a":1,"b":2}`}, {`.["0"]`, `[1,2]`}, {".[-1]?", `[]`}, {".a?.b", `{}`}, {".[010]", `[0,1,2,3,4,5,6,7,8,9,10,11]`}, {".[0:-1][0]", `[[1],[2]]`}} {
+		f.Add(s[0], s[1])
+	}
+	f.Fuzz(func(t *testing.T, text, data string) {
+		if len(text) > 64 || len(data) > 256 {
+			return
+		}
+		segs, ok := sel.ParseRef(text)
+		if !ok {
+			return
+		}
+		n, err := ipld.Decode([]byte(data), dagjson.Decode)
+		if err != nil {
+			return
+		}
+		// identity segments after the first position do nothing; the harness printer has no spelling for them
+		clean := sel.Sel{}
+		for i, g := range segs {
+			if g.Kind == "id" && i > 0 {
+				continue
+			}
+			clean = append(clean, g)
+		}
+		prop.One(t, Case{Sel: clean, Data: val.FromNode(n), Text: text})
+	})
+}
